@@ -70,8 +70,10 @@ def _next_sort_index() -> int:
 def reset_event_counter() -> None:
     """Reset the global event counter to zero.
 
-    Called by Simulation.__init__() so each simulation run gets
-    deterministic sort indices starting from 0.
+    No longer called by Simulation.__init__(): resetting while events built
+    before the constructor are still alive made same-instant ordering depend
+    on earlier activity in the interpreter.  Kept for callers that want small
+    indices (no live events may exist when it is called).
     """
     global _global_event_counter
     _global_event_counter = count()
